@@ -350,7 +350,7 @@ func runC05(c *gen.Ctx) error {
 		}
 		// patterns derived from plausible names
 		pat := func() string {
-			switch r.Intn(6) {
+			switch r.Intn(7) {
 			case 0:
 				return "S0/**"
 			case 1:
@@ -361,6 +361,8 @@ func runC05(c *gen.Ctx) error {
 				return "**/Protocol:PROTOCOL_GRPC/**"
 			case 4:
 				return "**/TLS:true/**"
+			case 5:
+				return "**/(grpc server impl)/**"
 			default:
 				return "**/b/**"
 			}
@@ -375,6 +377,31 @@ func runC05(c *gen.Ctx) error {
 			in.Skip = append(in.Skip, pat())
 		}
 		ins = append(ins, in)
+	}
+	// fixed coverage scenarios: every instance kind in one run (plaintext, TLS, TLS + client certs),
+	// and patterns that tell the gRPC-peer permutations (marked names) from the plain ones
+	allKinds := []c05Suite{
+		{Name: "P", Tests: []c05Test{{Name: "a/t0", St: 1}, {Name: "b/t1", St: 3}}},
+		{Name: "T", TLS: true, Tests: []c05Test{{Name: "a/t0", St: 1}, {Name: "a/t1", St: 2}}},
+		{Name: "M", TLS: true, Certs: true, Tests: []c05Test{{Name: "a/t0", St: 1}}},
+	}
+	for _, ms := range []int{1, 3} {
+		ins = append(ins, c05In{Mode: "both", MaxServers: ms, ExitDelayMs: 20, LatencyMs: 2, Versions: []int{1, 2}, Protos: []int{1, 2, 3}, TLS: true, Certs: true,
+			Behaviour: "ok", Run: []string{}, Skip: []string{}, Suites: allKinds})
+	}
+	markerPats := [][2][]string{
+		{{"**/(grpc server impl)/**"}, {}},
+		{{}, {"**/(grpc server impl)/**"}},
+		{{"**/TLS:false/a/t0"}, {}},
+		{{"P/**"}, {"**/(grpc server impl)/b/*"}},
+		{{"**/(grpc server impl)/a/t0", "T/**"}, {"**/Protocol:PROTOCOL_GRPC_WEB/**"}},
+	}
+	for i, mp := range markerPats {
+		if !c.Thorough() && i%2 == int(c.Seed%2) && i > 1 {
+			continue
+		}
+		ins = append(ins, c05In{Mode: "client", MaxServers: 2, Versions: []int{1, 2}, Protos: []int{1, 2, 3}, TLS: true, Certs: false,
+			Behaviour: "ok", Run: mp[0], Skip: mp[1], Suites: allKinds[:2]})
 	}
 	// server faults with slow-exiting servers and a single permit: the early-return paths of the
 	// batch runner must not free the permit while the aborted server is still alive
